@@ -1,7 +1,7 @@
 SPECIFICATION GenSpec
 CONSTANTS
   MaxEntries = 3
-  SizeDigits = {1, 3}
+  SizeDigits = {1}
   MtimeDigits = {10, 19}
   MaxVols = 2
   MaxVolEntries = 2
